@@ -38,13 +38,13 @@ T = {
  "C14-m1": ("C14", "input-object cycle check follows non-null *list* links", "input cycle whose links are all outer-non-null and at least one is a non-null list", ""),
  "C14-m2": ("C14", "interface extensions de-duplicate `implements` silently", "interface + `extend interface` repeating an implements entry", "thorough tier caught it; C14 space operator 'dup-member' now also repeats implements / union members, so the quick tier does too"),
  "C15-m1": ("C15", "input cycle check only follows links that are required (non-null and without default)", "non-null input cycle in which a link has a default value", "thorough tier caught it; operator 'non-null-input-link-with-default' added, so the quick tier does too"),
- "C15-m2": ("C15", "pruning of unused built-in scalars skipped when a missing one is re-inserted", "validate; into_inner; drop the last Int reference and add a Float reference; validate", "C16 operation 'remove the base field' (the invariant is shared by C15 and C16; C16 reports it)"),
+ "C15-m2": ("C15", "pruning of unused built-in scalars skipped when a missing one is re-inserted", "validate; into_inner; drop the last Int reference and add a Float reference; validate", "C16 operation 'remove the base field' (the invariant is shared by C15 and C16; C16 reports it); C15 gains a history part of its own (edit / validate sequences <= 3|4 steps from four bases, invariants judged after the final validation)"),
  "C16-m1": ("C16", "validate_schema returns early when all built-in scalars are used, skipping re-insertion", "prune Int, Float, ID; into_inner; reference all three again; validate", ""),
  "C16-m2": ("C16", "BuiltInScalars::record_type_ref returns the set-insert result", "prune; into_inner; two references to the same pruned scalar; validate", ""),
  "C17-m1": ("C17", "group_by_common_parents: abstract-parent fields merged into the first concrete group only (append drains)", "one response name under two object type conditions and on the abstract parent, conflict with a non-first concrete type", "thorough tier caught it; base pair b16 added, so the quick tier does too"),
  "C17-m2": ("C17", "validated_fragments set moved from per-operation to per-document", "two operations spreading the same variable-using fragment, the later one without a valid declaration", ""),
  "C18-m1": ("C18", "root_fields / all_fields end the iteration at a repeated fragment spread", "fragment spread a second time with fields reached after it", ""),
- "C18-m2": ("C18", "validate_fragment_spread returns at once for an already validated fragment (skips the spread's own directives)", "same fragment spread twice in one operation, the later spread with a directive using an undeclared variable", "C17 quick reports it (verdict); C18 thorough reports it"),
+ "C18-m2": ("C18", "validate_fragment_spread returns at once for an already validated fragment (skips the spread's own directives)", "same fragment spread twice in one operation, the later spread with a directive using an undeclared variable", "C17 quick reports it (verdict); C18 thorough reports it; base pair b20 (one fragment spread twice, the second spread with a directive argument variable): C18 quick reports the undefined variable"),
  "C19-m1": ("C19", "VariableDefinition serialized with directives before the default value", "variable definition with both a default and a directive", ""),
  "C19-m2": ("C19", "FieldSet top-level selections lose their separator under no_indent()", "FieldSet + no_indent() + two adjacent selections meeting name-to-name", ""),
  "C20-m1": ("C20", "without a schema, inline fragments with a type condition are dropped from the built document", "the only use of a variable / fragment sits inside `... on T { }`", ""),
@@ -89,7 +89,7 @@ T = {
  "C26-r2m1": ("C26", "Int result coercion uses a half-open range that excludes i32::MAX", "a resolver returning exactly 2147483647", ""),
  "C26-r2m2": ("C26", "collect_fields returns (instead of continuing) at an already visited fragment spread", "the same fragment reached twice in one selection set with more selections after the second spread", ""),
  "C17-r2m1": ("C17", "same_output_type_shape: `is_composite(a) || is_composite(b)` instead of `&&`", "same response name under two non-overlapping object type conditions, one a leaf and the other composite", "base pair b19 (a leaf and a composite field under disjoint type conditions, one alias apart) puts the case in the single-mutation space of the quick tier"),
- "C17-r2m2": ("C17", "is_variable_usage_allowed_at step 3.d checks assignability in the wrong direction", "nullable list variable with a default in a non-null list position whose item nullability differs", ""),
+ "C17-r2m2": ("C17", "is_variable_usage_allowed_at step 3.d checks assignability in the wrong direction", "nullable list variable with a default in a non-null list position whose item nullability differs", "S3 gains `lq(x: [Int!]!, y: [Int]! = [1])` and base pair b21 (nullable list variables in non-null list positions): C17 quick reports it"),
  "C14-r2m1": ("C14", "validate_implements_interfaces: the implemented name only has to be a defined type (contains_key) instead of an interface", "`implements` naming a defined object / union / scalar / enum / input type", ""),
  "C14-r2m2": ("C14", "is_valid_implementation_field_type: (List, NonNullList) alternative dropped", "interface field with a nullable list implemented by a non-null list at that level", ""),
  "C25-r2m1": ("C25", "fragment memo stores the absolute depth of the first spread", "fragment spread twice, the first spread below a list field", ""),
@@ -104,8 +104,8 @@ T = {
  "C01-r2m2": ("C01", "object_field: early return for a missing value between the recursion counter's increment and decrement", "`{ f(arg: {a: b: 1}) }`: an object field's colon directly followed by `name :` (trips the unbalanced-counter assertion)", ""),
  "C05-r2m1": ("C05", "scalar_type_extension no longer requires directives", "`extend scalar Date` with nothing after the name", ""),
  "C05-r2m2": ("C05", "interface_type_extension parses directives before implements", "interface extension with both an implements list and directives", ""),
- "C08-r2m1": ("C08", "can_be_block_string counts only spaces (not tabs) as common indentation", "multi-line description whose every non-blank line starts with a tab", ""),
- "C08-r2m2": ("C08", "\\uXXXX escape of control characters formatted in decimal", "quoted string containing U+000B or U+000E..U+001F", "C09 alphabet: U+001F (C09 reports it; C08 keeps two string representatives)"),
+ "C08-r2m1": ("C08", "can_be_block_string counts only spaces (not tabs) as common indentation", "multi-line description whose every non-blank line starts with a tab", "C08 gains the strings family (two templates x every string <= 3 symbols over 10 + every paragraph of 2..3 menu lines): C08 quick reports it"),
+ "C08-r2m2": ("C08", "\\uXXXX escape of control characters formatted in decimal", "quoted string containing U+000B or U+000E..U+001F", "C09 alphabet: U+001F (C09 reports it; C08 keeps two string representatives); C08 strings family (see C08-r2m1): C08 quick reports it"),
  "C11-r2m1": ("C11", "Name::location returns None when start_offset == 0", "a parsed name at byte offset 0 of its file (standalone Type::parse / FieldSet::parse)", "C11 standalone part (added before this seed was evaluated)"),
  "C11-r2m2": ("C11", "get_line_column_range fast path computes the end column from the byte length", "a located text without line terminator that contains a multi-byte character, range end inspected", "C11 line/column ranges of every node (added before this seed was evaluated)"),
  "C18-r2m1": ("C18", "Schema::type_field returns __typename for scalar, enum and input object types too", "fragment with a scalar / enum / input type condition selecting __typename", ""),
@@ -125,7 +125,7 @@ T = {
  "C06-r2m1": ("C06", "unescape_block_string keeps a trailing whitespace-only line that is longer than the common indent", "multi-line block string whose trailing whitespace-only line is longer than the common indent", ""),
  "C06-r2m2": ("C06", "from_cst fast path copies the text of a block string value without backslash / line terminator", "a one-line block string *value* (not a description) made of spaces or tabs only", ""),
  "C19-r2m1": ("C19", "InlineFragment::to_ast always writes a type condition (the parent type)", "an inline fragment without a type condition", ""),
- "C19-r2m2": ("C19", "serialize_string_value escape search uses is_control() (matches two-byte C1 controls) and slices one byte", "a string value containing U+0080..U+009F", "C09 alphabet: U+0085 (C09 reports the panic)"),
+ "C19-r2m2": ("C19", "serialize_string_value escape search uses is_control() (matches two-byte C1 controls) and slices one byte", "a string value containing U+0080..U+009F", "C09 alphabet: U+0085 (C09 reports the panic); C19 gains the same strings family on one valid document: C19 quick reports the panic"),
  "C03-r2m1": ("C03", "lexer State::Comment ends only at LF", "a comment followed by CR (CRLF or bare CR)", ""),
  "C03-r2m2": ("C03", "State::LeadingZero arms reordered: the name-start reject arm shadows the exponent arm", "`0e5`, `-0E+12`: integer part exactly 0 directly followed by an exponent", ""),
  "C07-r2m1": ("C07", "field_set: end-of-input check only in the else branch of `if has_braces`", "a braced field set followed by another token: `{ a } b`", ""),
